@@ -329,6 +329,52 @@ func (g *cgen) failOp() (ContOp, bool) {
 	}
 }
 
+// reentOp: the operand of an operation on a container is a generator which,
+// while the operation consumes it, mutates that very container through an
+// alias (re-entrancy: the operation is still in progress).  Only shapes whose
+// outcome the reference implementation fixes are generated: plain slices
+// (bounds resolved against the length at the start, clamped to the length
+// after the operand has been read), extend / += (items appended one by one
+// behind whatever the generator appended), dict.update from pairs, set.update.
+func (g *cgen) reentOp() (ContOp, bool) {
+	r := g.r
+	how := r.Intn(5)
+	k := r.Intn(3)
+	switch r.Intn(10) {
+	case 0, 1, 2, 3, 4, 5:
+		xi, ok := g.of("list")
+		if !ok {
+			return ContOp{}, false
+		}
+		x := a(xi)
+		gen := fmt.Sprintf("_mg(%s, %d, %d)", x, how, k)
+		switch r.Intn(4) {
+		case 0:
+			return st("reent.list.setslice", fmt.Sprintf("%s[%s] = %s", x, g.slice(false), gen))
+		case 1:
+			return st("reent.list.setslice-neg", fmt.Sprintf("%s[%d:] = %s", x, -1-r.Intn(3), gen))
+		case 2:
+			return st("reent.list.extend", fmt.Sprintf("%s.extend(%s)", x, gen))
+		default:
+			return st("reent.list.iadd", fmt.Sprintf("%s += %s", x, gen))
+		}
+	case 6, 7:
+		xi, ok := g.of("dict")
+		if !ok {
+			return ContOp{}, false
+		}
+		x := a(xi)
+		return st("reent.dict.update", fmt.Sprintf("%s.update(_mp(%s, %d, %d))", x, x, how%3, k))
+	default:
+		xi, ok := g.of("set")
+		if !ok {
+			return ContOp{}, false
+		}
+		x := a(xi)
+		return st("reent.set.update", fmt.Sprintf("%s.update(_ms(%s, %d))", x, x, k))
+	}
+}
+
 // tupleOp: copies between lists and the two observed tuples t0/t1 (a tuple
 // never changes, whatever is done to a list built from it or to the list it
 // was built from).
@@ -381,6 +427,9 @@ func (g *cgen) op(mixed bool) (ContOp, bool) {
 	}
 	if r.Chance(1, 10) {
 		return g.failOp()
+	}
+	if !g.excl["reent"] && r.Chance(1, 10) {
+		return g.reentOp()
 	}
 	switch r.Intn(10) {
 	case 0, 1, 2, 3, 4, 5:
@@ -578,7 +627,17 @@ func (g *cgen) setOp(mixed bool) (ContOp, bool) {
 	yi, _ := g.of("set")
 	y := a(yi)
 	z := r.Intn(nAlias)
-	switch r.Intn(13) {
+	switch r.Intn(15) {
+	case 13, 14:
+		// in-place operators change the object every alias refers to
+		op := []string{"|=", "&=", "-=", "^="}[r.Intn(4)]
+		if r.Chance(1, 4) {
+			y = x
+		}
+		if r.Chance(1, 3) {
+			return st("set.iop|literal", fmt.Sprintf("%s %s {%s, %s}", x, op, g.scalar(false), g.scalar(false)))
+		}
+		return st("set.iop", fmt.Sprintf("%s %s %s", x, op, y))
 	case 0, 1, 2:
 		return st("set.add", fmt.Sprintf("%s.add(%s)", x, g.scalar(mixed)))
 	case 3:
@@ -626,7 +685,7 @@ func (g *cgen) setOp(mixed bool) (ContOp, bool) {
 func (p *ContProg) Render() string {
 	var b strings.Builder
 	b.WriteString("from simlog import log, exc_name, hcall\nit0 = iter([])\nit1 = iter([])\n")
-	b.WriteString("def _fg(k):\n    for _i in range(5):\n        if _i == k:\n            raise ValueError(\"P\")\n        yield 20 + _i\ndef _fp(k):\n    for _i in range(5):\n        if _i == k:\n            raise ValueError(\"P\")\n        yield (\"k%d\" % _i, 30 + _i)\nclass _BadTruth:\n    def __bool__(self):\n        raise ValueError(\"P\")\n_fk = [0]\ndef _fkey(v):\n    _fk[0] -= 1\n    if _fk[0] == 0:\n        raise ValueError(\"P\")\n    return -v\n")
+	b.WriteString("def _fg(k):\n    for _i in range(5):\n        if _i == k:\n            raise ValueError(\"P\")\n        yield 20 + _i\ndef _fp(k):\n    for _i in range(5):\n        if _i == k:\n            raise ValueError(\"P\")\n        yield (\"k%d\" % _i, 30 + _i)\nclass _BadTruth:\n    def __bool__(self):\n        raise ValueError(\"P\")\ndef _mg(x, how, k):\n    for _i in range(3):\n        if _i == k:\n            if how == 0:\n                x.append(90 + _i)\n            elif how == 1:\n                del x[0:1]\n            elif how == 2:\n                del x[:]\n            elif how == 3:\n                x += [80, 81]\n            else:\n                x[0:0] = [70]\n        yield 40 + _i\ndef _mp(d, how, k):\n    for _i in range(3):\n        if _i == k:\n            if how == 0:\n                d[\"k9\"] = 99\n            elif how == 1:\n                d.update({\"k8\": 98})\n            else:\n                d[\"k%d\" % _i] = 97\n        yield (\"k%d\" % _i, 60 + _i)\ndef _ms(s, k):\n    for _i in range(3):\n        if _i == k:\n            s.add(95)\n        yield 50 + _i\n_fk = [0]\ndef _fkey(v):\n    _fk[0] -= 1\n    if _fk[0] == 0:\n        raise ValueError(\"P\")\n    return -v\n")
 	for i, e := range p.Init {
 		fmt.Fprintf(&b, "a%d = %s\n", i, e)
 	}
